@@ -440,6 +440,18 @@ func Explore(c *Ctx, o Oracle) int {
 			mu.Unlock()
 		}
 	})
+	// a batch that was cut short by its wall-clock budget before a tenth of its cases ran has
+	// not decided anything: say so (exit 2) instead of reporting a vacuous OK
+	c.Stats.mu.Lock()
+	ran := c.Stats.Cases
+	c.Stats.mu.Unlock()
+	floor := n / 10
+	if c.Tier != "quick" {
+		floor = n / 100 // thorough tiers are sized to fill their budget
+	}
+	if len(cands) == 0 && deadlinePassed() && ran < floor {
+		infra("only %d of %d cases ran before the wall-clock budget was used up (overloaded machine or pathologically slow runs); nothing decided", ran, n)
+	}
 	return c.Report(o, cands)
 }
 
